@@ -34,6 +34,7 @@ type sym struct {
 	delim       string          // kHere: delimiter after quote removal
 	strip       bool            // kHere: <<-
 	quotedDelim bool            // kHere: some part of the delimiter is quoted
+	noDelim     bool            // kHere: the delimiter line never comes (the body only holds look-alikes)
 }
 
 // ---- word part constructors (positions are zero: skeletons are position free)
@@ -236,6 +237,14 @@ func init() {
 	add(here("<<", "'G'", ast.Word{wSQ("G")}, "G", "${v\n", true))
 	add(here("<<", "H", ast.Word{wLit("H")}, "H", "a`b\n", false))
 	add(here("<<", "I", ast.Word{wLit("I")}, "I", "a$v `c` \\$\n", false)) // unquoted delimiter, a body full of expansions
+	// line continuations inside a body: removed under an unquoted delimiter, literal text under a quoted one
+	add(here("<<", "J", ast.Word{wLit("J")}, "J", "foo \\\nbar\n", false))
+	add(here("<<", "'J'", ast.Word{wSQ("J")}, "J", "foo \\\nbar\n", true))
+	// unterminated here-documents: the lines that follow only look like the delimiter
+	for _, u := range []sym{here("<<-", "K", ast.Word{wLit("K")}, "K", "x\n K\n", false), here("<<", "K", ast.Word{wLit("K")}, "K", "\tK\nK \n", false), here("<<-", "'K'", ast.Word{wSQ("K")}, "K", "\t K\nKK\n", true)} {
+		u.noDelim = true
+		add(u)
+	}
 	h3 := here("<<", "E", ast.Word{wLit("E")}, "E", "x\n", false)
 	h3.text, h3.num = "3<<E", "3"
 	add(h3)
@@ -342,6 +351,9 @@ func renderLayout(ss []sym, tight bool) rendered {
 			comment = false
 			for _, h := range pending {
 				b.WriteString(h.body)
+				if h.noDelim {
+					continue
+				}
 				if h.strip {
 					b.WriteByte('\t') // <<- : the delimiter line may be indented with tabs
 				}
